@@ -1013,9 +1013,111 @@ func (g *gen) flatten() {
 }
 
 // GenCase builds one case around a main transaction of type t (0..0x16; 0x17 = unknown code).
+// NScenarios: transaction types 0..0x16, an unknown type code, and the multi-step sequences
+const NScenarios = 26
+
+// sequenceCase: multi-step histories inside one block state.
+//   24: an inviter with 3–5 outstanding invitees (Invite / Candidate, with stake) is terminated (own KillTx, or its pool's
+//       KillDelegatorTx), then signs a KillInviteeTx against one of its former invitees — must be refused;
+//   25: D's DelegateTx to P is applied (a pending delegation switch, not yet a delegation), then P signs a KillDelegatorTx
+//       against D — must be refused; variant: the pending switch is already in the state.
+func (g *gen) sequenceCase(t uint16) *Case {
+	cs := g.cs
+	cs.G.Period = 0
+	step := func(i int) {
+		cs.Ops = append(cs.Ops, Op{Kind: "val", Mode: 1, MinFpg: "net", Tx: i}, Op{Kind: "val", Mode: 2 + g.pick(2), MinFpg: "net", Tx: i},
+			Op{Kind: "apply", Tx: i})
+	}
+	if t == 24 {
+		if g.chance(0.8) {
+			cs.U12 = true
+		}
+		k := g.key()
+		if cs.G.God == k {
+			cs.G.God = g.other(k)
+		}
+		g.setValidated(k, []uint8{stVerified, stHuman, stSuspended, stZombie}[g.pick(4)])
+		g.clearDelegation(k)
+		g.I(k).Invitees, g.I(k).Inviter = nil, nil
+		var inv []int
+		for _, o := range g.r.Perm(NKeys) {
+			id := o + 1
+			if id != k && id != cs.G.God && len(inv) < 3+g.pick(3) {
+				inv = append(inv, id)
+			}
+		}
+		for _, id := range inv {
+			for _, in := range g.idn { // one inviter link per invitee
+				var keep []int
+				for _, x := range in.Invitees {
+					if x != id {
+						keep = append(keep, x)
+					}
+				}
+				in.Invitees = keep
+			}
+			in := g.I(id)
+			in.State = []uint8{stInvite, stCandidate}[g.pick(2)]
+			in.Stake = dna(int64(1 + g.pick(50)))
+			in.Repl, in.Locked = new(big.Int).Set(in.Stake), bi(0)
+			g.clearDelegation(id)
+			g.link(k, id)
+		}
+		var tx0 *TxD
+		note := "seq:kill-then-killInvitee"
+		if g.chance(0.3) { // the inviter is terminated by its pool
+			p := g.other(append([]int{k}, inv...)...)
+			g.delegate(k, p, true)
+			tx0 = g.mkTx(types.KillDelegatorTx, p, ip(k), nil, nil)
+			note = "seq:killDelegator-then-killInvitee"
+		} else {
+			tx0 = g.mkTx(types.KillTx, k, nil, nil, nil)
+		}
+		target := inv[g.pick(len(inv))]
+		tx1 := g.mkTx(types.KillInviteeTx, k, ip(target), nil, nil)
+		if tx0.Key == k {
+			tx1.Nonce = tx0.Nonce + 1
+		}
+		cs.Txs = append(cs.Txs, *tx0, *tx1)
+		step(0)
+		step(1)
+		cs.Note = note
+	} else {
+		d := g.key()
+		p := g.other(d)
+		g.setValidated(d, []uint8{stVerified, stHuman, stNewbie}[g.pick(3)])
+		g.I(d).Stake = dna(int64(1 + g.pick(50)))
+		g.I(d).Locked, g.I(d).Repl = bi(0), bi(0)
+		g.clearDelegation(d)
+		g.clearDelegation(p)
+		g.notPool(d)
+		g.I(d).PenSec = 0
+		g.I(p).State = []uint8{stVerified, stHuman, stUndefined}[g.pick(3)]
+		if g.chance(0.6) {
+			tx0 := g.mkTx(types.DelegateTx, d, ip(p), nil, nil)
+			tx1 := g.mkTx(types.KillDelegatorTx, p, ip(d), nil, nil)
+			cs.Txs = append(cs.Txs, *tx0, *tx1)
+			step(0)
+			step(1)
+			cs.Note = "seq:delegate-then-killDelegator"
+		} else {
+			cs.G.DelegSwitch = append(cs.G.DelegSwitch, [2]int{d, p})
+			tx0 := g.mkTx(types.KillDelegatorTx, p, ip(d), nil, nil)
+			cs.Txs = append(cs.Txs, *tx0)
+			step(0)
+			cs.Note = "seq:pending-switch-killDelegator"
+		}
+	}
+	g.flatten()
+	return cs
+}
+
 func GenCase(r *rand.Rand, t uint16) *Case {
 	g := &gen{r: r, cs: &Case{}, acct: map[int]*Acct{}, idn: map[int]*Ident{}, reg: map[int]*Reg{}}
 	g.base()
+	if t >= 24 {
+		return g.sequenceCase(t)
+	}
 	tx := g.scenario(t)
 	note := TypeName(t)
 	nState := []int{0, 0, 1, 1, 2}[g.pick(5)]
